@@ -138,14 +138,24 @@ def main(ctx, replay=None):
                 if not any(isinstance(h, logging.NullHandler) for h in lg.handlers):
                     lg.addHandler(logging.NullHandler())
                 desc["logger"] = "DEBUG"
+            # one data set in four is calculated while the process's working directory is the directory of ANOTHER data set (files with the
+            # same names, other contents): the files that count are those the settings file names, next to the settings file
+            import os
+            here = os.getcwd()
+            other = next((dd for _ds, dd in datasets[:-1] if dd != d), None)
+            if n % 4 == 3 and other is not None:
+                os.chdir(other)
+                desc["working_directory"] = "another data set's directory"
             try:
                 calc = run(sp)
             except Exception as ex:
+                os.chdir(here)
                 lg.setLevel(old_level)
                 lg.propagate = old_prop
                 ctx.violation(f"Calculator failed on a well-formed synthetic data set ({kind} {arg}): {ex!r}", {**desc, "dir": str(d)},
                               {"clause": "completes", "exc": type(ex).__name__})
                 continue
+            os.chdir(here)
             lg.setLevel(old_level)
             lg.propagate = old_prop
             check_case(ctx, ds, calc, desc, insts)
@@ -205,6 +215,19 @@ def check_case(ctx, ds, calc, desc, insts):
         i = int(numpy.argmax(numpy.max(dev, axis=1)))
         ctx.violation(f"axial strain fractions at volume #{i} are {frac[i].tolist()}, the files give {want[i].tolist()}", desc, {**sig, "clause": "strains"})
         return
+    # (i-a) the ends of the volume grid: the strain fractions derived from the axis lengths are a smooth field, so the value at a grid end
+    #       continues the two nearest interior values (between half a step and a whole step of linear continuation, depending on whether
+    #       the end uses a one-sided or a centred difference; allowance: half a step plus the local second differences)
+    if ds.lattice and frac.shape[0] >= 6:
+        for end, (a, b, c, e) in (("first", (0, 1, 2, 3)), ("last", (-1, -2, -3, -4))):
+            step = frac[b] - frac[c]
+            cont = frac[b] + 0.75 * step
+            allow = 0.3 * numpy.abs(step) + 3.0 * numpy.abs(frac[b] - 2.0 * frac[c] + frac[e]) + 1e-7
+            if not numpy.all(numpy.abs(frac[a] - cont) <= allow):
+                ctx.violation(f"axial strain fractions at the {end} grid volume are {frac[a].tolist()}; the neighbouring volumes have {frac[b].tolist()} and "
+                              f"{frac[c].tolist()} (the axis lengths change smoothly with volume: no such jump at the end of the grid)", desc,
+                              {**sig, "clause": "strains_grid_end"})
+                return
     # (i-b) the static pressure is -dE/dV of the cubic finite-strain fit of the static energies (in-class: the BM3 form itself);
     #       the code differentiates numerically on the volume grid, hence the loose tolerance (a wrong reference volume or a
     #       wrong energy column is a shift of many GPa)
